@@ -1,11 +1,35 @@
 import Wl2kVerif.Std.Fmt
 namespace Wl2k.Fmt
 
+theorem decAux_fuel (f n : Nat) (h : n ≤ f) : decAux f n = decAux n n := by
+  induction f using Nat.strongRecOn generalizing n with
+  | _ f ih =>
+    cases f with
+    | zero =>
+      have : n = 0 := by omega
+      subst this; rfl
+    | succ f =>
+      cases n with
+      | zero => simp [decAux]
+      | succ n =>
+        simp only [decAux]
+        split
+        · rfl
+        · rw [ih f (by omega) ((n + 1) / 10) (by omega), ih n (by omega) ((n + 1) / 10) (by omega)]
+
 theorem dec_lt (n : Nat) (h : n < 10) : dec n = [digit n] := by
-  rw [dec]; simp [h]
+  unfold dec
+  cases n with
+  | zero => rfl
+  | succ n => simp [decAux, h]
 
 theorem dec_ge (n : Nat) (h : 10 ≤ n) : dec n = dec (n / 10) ++ [digit n] := by
-  rw [dec]; simp [Nat.not_lt.mpr h]
+  unfold dec
+  cases n with
+  | zero => omega
+  | succ n =>
+    simp only [decAux]
+    rw [if_neg (by omega), decAux_fuel n ((n + 1) / 10) (by omega)]
 
 theorem dec_length_pos (n : Nat) : 0 < (dec n).length := by
   by_cases h : n < 10
@@ -76,5 +100,31 @@ theorem fixed_all_digits (k x : Nat) : ∀ c ∈ fixed k x, 48 ≤ c.toNat ∧ c
       have : x % 10 < 10 := Nat.mod_lt _ (by omega)
       simp only [digit, UInt8.toNat_ofNat']
       omega
+
+theorem dec_length_le (w n : Nat) (hw : 0 < w) (h : n < 10 ^ w) : (dec n).length ≤ w := by
+  induction w generalizing n with
+  | zero => omega
+  | succ w ih =>
+    by_cases hn : n < 10
+    · simp [dec_lt n hn]
+    · rw [dec_ge n (by omega)]
+      have hw' : 0 < w := by
+        rcases Nat.eq_zero_or_pos w with h0 | h0
+        · subst h0; simp at h; omega
+        · exact h0
+      have : n / 10 < 10 ^ w := by
+        rw [Nat.div_lt_iff_lt_mul (by omega)]; rw [Nat.pow_succ] at h; exact h
+      have := ih (n / 10) hw' this
+      simp; omega
+
+/-- `%0wd` of a number that fits is exactly its `w` digits. -/
+theorem dec0_eq_fixed (w n : Nat) (hw : 0 < w) (h : n < 10 ^ w) : dec0 w n = fixed w n := by
+  rw [← lastN_dec0]
+  have hl := dec_length_le w n hw h
+  have : (dec0 w n).length = w := by simp [dec0, padLeft]; omega
+  simp [lastN, this]
+
+theorem dec0_length_ge (w n : Nat) : w ≤ (dec0 w n).length := by
+  simp [dec0, padLeft]; omega
 
 end Wl2k.Fmt
